@@ -39,7 +39,7 @@ Q03 = [("lifecycle", 24000), ("owning", 8000), ("handles", 6000), ("mailbox", 40
 Q04 = [("stoprace", 2000), ("lifecycle", 30000), ("owning", 12000), ("mailbox", 6000), ("backpressure", 4000), ("timeout", 8000), ("restart", 4000), ("faults+faults", 250), ("lifecycle+faults", 250), ("mix", 10000), ("mix+faults", 150), ("stream", 8000)]
 Q05 = [("handles", 24000), ("droprace", 2000), ("registry", 8000), ("lifecycle", 12000), ("owning", 6000), ("mailbox", 4000), ("broker", 8000), ("stream", 6000), ("timers", 6000), ("tree", 8000), ("svckeep", 6000), ("mix", 10000)]
 Q12 = [("bigburst", 6), ("backpressure", 30000), ("mailbox", 10000), ("lifecycle", 4000), ("mix", 10000)]
-Q17 = [("owning", 30000), ("lifecycle", 10000), ("mailbox", 4000), ("timeout", 8000), ("restart", 8000), ("mix", 10000), ("owning+faults", 400)]
+Q17 = [("owning", 30000), ("lifecycle", 10000), ("mailbox", 4000), ("timeout", 8000), ("restart", 8000), ("mix", 10000), ("owning+faults", 400), ("joinrace", 1000)]
 
 Q07 = [("restart", 30000), ("lifecycle", 12000), ("kinds", 4000), ("mix", 10000)]
 Q10 = [("timers", 30000), ("restart", 6000), ("handles", 6000), ("kinds", 6000), ("lifecycle", 4000), ("timeout", 10000), ("backpressure", 6000), ("mix", 10000)]
@@ -87,7 +87,7 @@ PLANS = {
                 "a join/consume yielded the actor, or an OwningAddr was detached",
                 ["C17.R1.join_after_stopped", "C17.R1.first_join_result", "C17.R2.final_state", "C17.R3.at_most_once", "C17.R3.unpolled_join_takes_nothing", "C17.R4.join_resolves", "C17.R1.none_on_failed",
                  "C17.R6.detach_keeps_running"],
-                mt=[('owning', 480), ('mix', 160)], mt_required=['L2:C17.R2.final_state', 'L2:C17.R3.at_most_once']),
+                mt=[('owning', 480), ('mix', 160), ('joinrace', 480)], mt_required=['L2:C17.R2.final_state', 'L2:C17.R3.at_most_once', 'L2:C17.R1.first_join_result']),
     "C07": plan(Q07, scale(Q07, 40),
                 "at least one restart request (Addr::restart or Context::restart) was accepted",
                 ["C07.R1.handles_survive", "C07.R2.incarnation_of_message", "C07.R3.restart_count", "C07.R3.strategy_model",
